@@ -90,6 +90,14 @@ def handle (iasOfMach : Rat → Int → Rat) (ws : List String) : String :=
   | ["crc_legacy", m, e] => fmtNat (crcLegacy m.toList (e == "1"))
   | ["icao", m] => fmtOpt fmtMsg (icao m.toList)
   | ["typecode", m] => fmtOpt fmtNat (typecode m.toList)
+  | ["c.altitude", b] => fmtRes (fun x => fmtOpt fmtInt (C.altOfSentinel x)) (C.altitude (bitsOfString b))
+  | ["c.squawk", b] => fmtRes fmtDigits (C.squawk (bitsOfString b))
+  | ["c.df", m] => fmtNat (C.df m.toList)
+  | ["c.typecode", m] => fmtOpt fmtNat (C.tcOfSentinel (C.typecode m.toList))
+  | ["c.icao", m] => fmtOpt fmtMsg (C.icao m.toList)
+  | ["c.idcode", m] => fmtRes fmtDigits (C.idcode m.toList)
+  | ["c.altcode", m] => fmtRes (fun x => fmtOpt fmtInt (C.altOfSentinel x)) (C.altcode m.toList)
+  | ["c.crc", m, e] => fmtInt (C.crc m.toList (e == "1"))
   | ["altitude13", b] => fmtRes (fmtOpt fmtInt) (altitude13 (bitsOfString b))
   | ["altcode", m] => fmtRes (fmtOpt fmtInt) (altcode m.toList)
   | ["squawk", b] => fmtRes fmtDigits (squawk (bitsOfString b))
